@@ -245,3 +245,30 @@ crypto_aesctr_buf(const struct crypto_aes_key * key, uint64_t nonce,
 	/* Zero potentially sensitive information. */
 	insecure_memzero(stream, sizeof(struct crypto_aesctr));
 }
+
+#ifdef LIBCPERCIVA_VERIF
+void crypto_aesctr_verif_seek(struct crypto_aesctr *, uint64_t);
+
+/**
+ * crypto_aesctr_verif_seek(stream, nblocks):
+ * Verification hook: put the freshly initialized AES-CTR stream ${stream}
+ * into the state it would have after processing ${nblocks} whole blocks, so
+ * that block-counter carries far into the stream can be exercised without
+ * streaming that much data.
+ */
+void
+crypto_aesctr_verif_seek(struct crypto_aesctr * stream, uint64_t nblocks)
+{
+
+	/* Sanity check: must follow _init2() directly. */
+	assert(stream->bytectr == 0);
+
+	/* Nothing to do for the start of the stream. */
+	if (nblocks == 0)
+		return;
+
+	/* The counter block holds the most recently used block number. */
+	stream->bytectr = nblocks * 16;
+	be64enc(stream->pblk + 8, nblocks - 1);
+}
+#endif /* LIBCPERCIVA_VERIF */
